@@ -70,6 +70,7 @@ type Out struct {
 // Case is one scan.
 type Case struct {
 	UG, ISD, RS, EOFS, CB bool
+	SAP                    bool // StoreAbsolutePath (only with ABS and one root): reported locations must be /vr0/<relative location>
 	ABS                    bool // scan roots carry an absolute Path (/vr<i>); PathsToExtract and DirsToSkip are given as absolute paths below root 0
 	MX, MI, CA, NExt       int
 	EK                     int // kind of the injected filesystem errors: 0 other (EIO-like), 1 permission, 2 not-exist
@@ -160,7 +161,7 @@ func keys(m map[string]bool) []string {
 // Line renders the case line understood by lean/Drivers/Walk.lean.
 func (c *Case) Line() string {
 	var sb strings.Builder
-	fmt.Fprintf(&sb, "walk ug=%d,isd=%d,rs=%d,mx=%d,mi=%d,eofs=%d,cb=%d,ca=%d,next=%d,ek=%d,abs=%d", b(c.UG), b(c.ISD), b(c.RS), c.MX, c.MI, b(c.EOFS), b(c.CB), c.CA, c.NExt, c.EK, b(c.ABS))
+	fmt.Fprintf(&sb, "walk ug=%d,isd=%d,rs=%d,mx=%d,mi=%d,eofs=%d,cb=%d,ca=%d,next=%d,ek=%d,abs=%d,sap=%d", b(c.UG), b(c.ISD), b(c.RS), c.MX, c.MI, b(c.EOFS), b(c.CB), c.CA, c.NExt, c.EK, b(c.ABS), b(c.SAP))
 	fmt.Fprintf(&sb, " %s %s", hexPaths(c.Paths, ";"), hexPaths(c.Skip, ";"))
 	set := func(has bool, s []string) string {
 		if !has {
@@ -248,6 +249,8 @@ func ParseLine(l string) *Case {
 			c.EK = n
 		case "abs":
 			c.ABS = n == 1
+		case "sap":
+			c.SAP = n == 1
 		}
 	}
 	c.Paths = unhexPaths(t[2], ";")
@@ -665,7 +668,7 @@ func Run(c *Case, mk func(*scalibr.ScanConfig), slow time.Duration) string {
 	}
 	col := &coll{}
 	cfg := &scalibr.ScanConfig{FilesystemExtractors: exs, UseGitignore: c.UG, IgnoreSubDirs: c.ISD, ReadSymlinks: c.RS, MaxFileSize: c.MX, MaxInodes: c.MI,
-		ErrorOnFSErrors: c.EOFS, Stats: col, PathsToExtract: paths, DirsToSkip: skip, ScanRoots: roots, Capabilities: &plugin.Capabilities{}}
+		ErrorOnFSErrors: c.EOFS, StoreAbsolutePath: c.SAP, Stats: col, PathsToExtract: paths, DirsToSkip: skip, ScanRoots: roots, Capabilities: &plugin.Capabilities{}}
 	mk(cfg)
 	body := func() (out string) {
 		defer func() {
@@ -693,6 +696,13 @@ func Run(c *Case, mk func(*scalibr.ScanConfig), slow time.Duration) string {
 			ex := p.Extractor.Name()[1:]
 			ls := make([]string, len(p.Locations))
 			for i, l := range p.Locations {
+				if c.SAP { // the absolute form of a location is the scan root joined with the relative one
+					if rel, ok := strings.CutPrefix(l, "/vr0/"); ok {
+						l = rel
+					} else {
+						l = "!not-under-root:" + l
+					}
+				}
 				ls[i] = hx.Hex(l)
 			}
 			pk = append(pk, fmt.Sprintf("%d@%s@%s", p.Metadata.(int), ex, strings.Join(ls, "+")))
